@@ -8,6 +8,14 @@
 #define VCSTR_EXACT_AT(p, n, j) (VCSTR_FRESH(p, n) && (!((j) < (n)) || ((const char *)(p))[(j)] != 0))
 #define VMIN(a, b) ((a) < (b) ? (a) : (b))
 
+/* annot/strings.c.split.ann (owner split) uses the macros of contracts/split.h in the annotated copy of
+ * strings.c: every unit that includes src/strings.c needs them */
+#if defined(__has_include)
+# if __has_include("split.h")
+#  include "split.h"
+# endif
+#endif
+
 /* ---- owner strhelp ------------------------------------------------------------------------- */
 #define VOFF(p) __CPROVER_POINTER_OFFSET(p)
 /* offset of p relative to q (same object) */
